@@ -8,7 +8,7 @@ use proptest::test_runner::{Config, RngSeed, TestRunner};
 
 use model::gen::{callback_defs, lexing_defs};
 use model::prep::prepare;
-use model::set::{render_module, SubjectDef, SubjectSet};
+use model::set::{render_module, stress_defs, SubjectDef, SubjectSet};
 
 fn write_if_changed(path: &Path, content: &str) -> bool {
     if let Ok(old) = std::fs::read_to_string(path) {
@@ -96,6 +96,9 @@ fn main() {
         total_states += 3 * p.graph.states.len();
         defs.push(SubjectDef { family: "callbacks".into(), def, skip_log: false, has_value, error_cb });
         got += 1;
+    }
+    if from_replay.is_none() {
+        defs.extend(stress_defs());
     }
     let set = SubjectSet { seed, tier: tier.clone(), defs };
 
